@@ -269,6 +269,7 @@ class Ctx:
             body = [header, "", f"Definition cases : list ({ctype}) := ["]
             body.append(";\n".join("  " + t for t in sh_terms))
             body.append("].")
+            body.append("Set Printing Width 1000000.")
             body.append(f"Eval vm_compute in (mismatches ({checker}) cases).")
             path = os.path.join(GEN, name + ".v")
             with open(path, "w") as fh:
@@ -287,15 +288,20 @@ class Ctx:
                 if rc != 0:
                     err = f"coqc failed on shard {k}: {out[-1500:]}"
                     continue
-                flat = " ".join(out.split())
+                flat = " ".join(out.split()).replace("%nat", "")
                 m = re.search(r"= (\[.*\]) : list \(nat \* list nat\)", flat)
                 if not m:
                     err = f"unparsable coqc output on shard {k}: {flat[-500:]}"
                     continue
-                for mm in re.finditer(r"\((\d+), \[([\d; ]*)\]\)", m.group(1)):
+                found = 0
+                for mm in re.finditer(r"\(\s*(\d+)\s*,\s*\[([\d; ]*)\]\s*\)", m.group(1)):
                     idx = int(mm.group(1)) + k * shard
                     tags = [int(x) for x in mm.group(2).split(";") if x.strip()]
                     res.append((idx, tags))
+                    found += 1
+                # fail closed: a non-empty answer must parse completely
+                if found != m.group(1).count("("):
+                    err = f"could not parse the mismatch list of shard {k}: {m.group(1)[:500]}"
         for k, path in jobs:
             for ext in (".v", ".vo", ".vok", ".vos", ".glob"):
                 try:
